@@ -30,7 +30,7 @@ def check(ctx):
     # the property as a differential statement, free of model predictions: every part of a program that starts with a Reset on
     # a used decoder is run again on a fresh decoder; returns and accessors must agree call by call
     rep = ctx.path("fddiff.json")
-    vh(ctx, ["fddiff", ctx.path("frames_dict.json"), ctx.path("MC_FD_histories_programs.ndjson"), rep, 2 if q else 1], timeout=7200)
+    vh(ctx, ["fddiff", ctx.path("frames_dict.json"), ctx.path("MC_FD_histories_programs.ndjson"), rep, 2 if q else 1, 1 if q else 2], timeout=7200)
     dj = json.load(open(rep))
     ctx.evaluations += dj["observations_compared"]
     ctx.traces += dj["segments_compared"]
